@@ -120,6 +120,94 @@ VTfAnchor(e) ==
               /\ (x = One => Near(y, One, CurveTol(e.tc, e.dir)))})
 
 -------------------------------------------------------------------------------------
+\* C04  ev = "xyb":  Xyb::from(LinearRgb)
+XybOk(p, o) == AllNum3(o) /\ LET r == XybRef(p) IN \A k \in 1..3 : Near(o[k], r[k], Tol2em6)
+VXyb(e) ==
+  IF e.res # "ok" THEN <<"C04.result", e.res>>
+  ELSE IF Len(e.out) # Len(e.in) THEN <<"C04.shape">>
+  ELSE FirstBad("C04.value", {i \in 1..Len(e.in) : AllNum3(e.in[i]) /\ InScope04(e.in[i]) /\ ~XybOk(e.in[i], e.out[i])})
+
+\* C05  ev = "xybrt":  LinearRgb::from(Xyb::from(lin));  mid is simultaneously held to the forward definition
+VXybRt(e) ==
+  IF e.res # "ok" THEN <<"C05.result", e.res>>
+  ELSE IF Len(e.back) # Len(e.in) \/ Len(e.mid) # Len(e.in) THEN <<"C05.shape">>
+  ELSE LET S == {i \in 1..Len(e.in) : AllNum3(e.in[i]) /\ InUnitCube(e.in[i])}
+           badRt  == {i \in S : ~(AllNum3(e.back[i]) /\ \A k \in 1..3 : Near(e.back[i][k], e.in[i][k], Tol5em5))}
+       IN IF badRt # {} THEN <<"C05.roundtrip", MinOf(badRt)>>
+          ELSE FirstBad("C05.forward", {i \in S : ~XybOk(e.in[i], e.mid[i])})
+
+\* C06  ev = "prim":  primaries <-> BT.709 working space with transfer = Linear; out, back (+ raw bits)
+InPrimDomain(p) == AllNum3(p) /\ \A k \in 1..3 : Cmp(p[k], MHalf) >= 0 /\ Cmp(p[k], Two) <= 0
+VPrim(e) ==
+  IF ~(e.cp \in Cp11) THEN <<"C06.domain">>
+  ELSE IF e.res # "ok" THEN <<"C06.result", e.res>>
+  ELSE IF Len(e.out) # Len(e.in) \/ Len(e.back) # Len(e.in) THEN <<"C06.shape">>
+  ELSE IF e.cp = 1 THEN FirstBad("C06.identity-bits", {i \in 1..Len(e.in) : e.outb[i] # e.ib[i] \/ e.backb[i] # e.ib[i]})
+  ELSE LET S == {i \in 1..Len(e.in) : InPrimDomain(e.in[i])}
+           badV == {i \in S : LET r == PrimRef(e.cp, e.dir, e.in[i]) IN
+                      ~(AllNum3(e.out[i]) /\ \A k \in 1..3 : Near(e.out[i][k], r[k], RelTol5(r[k])))}
+           badW == {i \in S : e.in[i] = <<One, One, One>> /\ ~(\A k \in 1..3 : Near(e.out[i][k], One, Tol1em5))}
+           badB == {i \in S : ~(AllNum3(e.back[i]) /\ \A k \in 1..3 : Near(e.back[i][k], e.in[i][k], Tol1em5))}
+       IN IF badV # {} THEN <<"C06.matrix", MinOf(badV)>>
+          ELSE IF badW # {} THEN <<"C06.white", MinOf(badW)>>
+          ELSE FirstBad("C06.there-and-back", badB)
+
+\* C17  ev = "hsl":  Hsl::from(lin) and back;  out = <<H, S, L>>
+T001   == D(0, 0100, 0, 0, 0)
+T099   == D(0, 9900, 0, 0, 0)
+HslRangeOk(o) == /\ AllNum3(o)
+                 /\ o[1][1] >= 0 /\ Cmp(o[1], F360) < 0
+                 /\ o[2][1] >= 0 /\ Cmp(o[2], One) <= 0
+                 /\ o[3][1] >= 0 /\ Cmp(o[3], One) <= 0
+HslModelOk(p, o) ==
+  LET mx == Max3(p)  mn == Min3(p)  c == Sub(mx, mn)
+      L  == DivInt(Add(mx, mn), 2)
+      w  == Sub(One, Abs(Sub(MulInt(L, 2), One)))              \* 1 - |2L - 1|
+  IN /\ Near(o[3], L, Tol1em6)
+     /\ (Cmp(L, T001) >= 0 /\ Cmp(L, T099) <= 0) =>
+           Cmp(Abs(Sub(Mul(o[2], w), c)), Add(Mul(Tol1em4, w), SpecEps)) <= 0
+     /\ (Cmp(c, T001) >= 0) => NearMod360(o[1], HueRef(p), T001)
+VHsl(e) ==
+  IF e.res # "ok" THEN <<"C17.result", e.res>>
+  ELSE IF Len(e.out) # Len(e.in) \/ Len(e.back) # Len(e.in) THEN <<"C17.shape">>
+  ELSE LET S == {i \in 1..Len(e.in) : AllNum3(e.in[i]) /\ InUnitCube(e.in[i])}
+           badR == {i \in S : ~HslRangeOk(e.out[i])}
+           badM == {i \in S : AllNum3(e.out[i]) /\ ~HslModelOk(e.in[i], e.out[i])}
+           badB == {i \in S : ~(AllNum3(e.back[i]) /\ \A k \in 1..3 : Near(e.back[i][k], e.in[i][k], Tol1em5))}
+       IN IF badR # {} THEN <<"C17.range", MinOf(badR)>>
+          ELSE IF badM # {} THEN <<"C17.hexcone", MinOf(badM)>>
+          ELSE FirstBad("C17.roundtrip", badB)
+\* ev = "hslinv":  LinearRgb::from(Hsl) for H in [0,360), S in [0,1], L in {0,1}: L = 0 black, L = 1 white
+VHslInv(e) ==
+  IF e.res # "ok" THEN <<"C17.result", e.res>>
+  ELSE FirstBad("C17.L-anchor",
+    {i \in 1..Len(e.in) :
+       LET p == e.in[i] IN
+       /\ AllNum3(p) /\ p[1][1] >= 0 /\ Cmp(p[1], F360) < 0 /\ p[2][1] >= 0 /\ Cmp(p[2], One) <= 0
+       /\ (p[3] = Z \/ p[3] = One)
+       /\ ~(AllNum3(e.out[i]) /\ \A k \in 1..3 : Near(e.out[i][k], p[3], Tol1em5))})
+
+\* C16  grey through XYB, HSL and the primaries stage
+IsGreyIn(p) == AllNum3(p) /\ p[1] = p[2] /\ p[2] = p[3]
+VXybGrey(e) ==
+  IF e.res # "ok" THEN <<"C16.result", e.res>>
+  ELSE FirstBad("C16.xyb-grey",
+    {i \in 1..Len(e.in) : LET p == e.in[i]  o == e.out[i] IN
+       IsGreyIn(p) /\ InUnitCube(p) /\
+       ~ /\ AllNum3(o) /\ Near(o[1], Z, Tol1em6) /\ Near(o[2], o[3], Tol1em6)
+         /\ (p[1] = Z => \A k \in 1..3 : Near(o[k], Z, Tol1em6))})
+VHslGrey(e) ==
+  IF e.res # "ok" THEN <<"C16.result", e.res>>
+  ELSE FirstBad("C16.hsl-grey",
+    {i \in 1..Len(e.in) : LET p == e.in[i]  o == e.out[i] IN
+       IsGreyIn(p) /\ InUnitCube(p) /\ ~(AllNum3(o) /\ o[1] = Z /\ o[2] = Z /\ Near(o[3], p[1], Tol1em6))})
+VPrimGrey(e) ==
+  IF e.res # "ok" THEN <<"C16.result", e.res>>
+  ELSE FirstBad("C16.prim-grey",
+    {i \in 1..Len(e.in) : LET p == e.in[i]  o == e.out[i] IN
+       IsGreyIn(p) /\ InPrimDomain(p) /\ ~(AllNum3(o) /\ Cmp(Spread3(o), Add(RelTol5(p[1]), SpecEps)) <= 0)})
+
+-------------------------------------------------------------------------------------
 Verdict(e) ==
   CASE e.ev = "dec"    -> VDec(e)
     [] e.ev = "enc"    -> VEnc(e)
@@ -130,6 +218,14 @@ Verdict(e) ==
     [] e.ev = "tfa"    -> VTfa(e)
     [] e.ev = "tfrt"   -> VTfrt(e)
     [] e.ev = "tfanchor" -> VTfAnchor(e)
+    [] e.ev = "xyb"    -> VXyb(e)
+    [] e.ev = "xybrt"  -> VXybRt(e)
+    [] e.ev = "prim"   -> VPrim(e)
+    [] e.ev = "hsl"    -> VHsl(e)
+    [] e.ev = "hslinv" -> VHslInv(e)
+    [] e.ev = "xybgrey"  -> VXybGrey(e)
+    [] e.ev = "hslgrey"  -> VHslGrey(e)
+    [] e.ev = "primgrey" -> VPrimGrey(e)
     [] OTHER           -> <<"unknown-event", e.ev>>
 
 Judge(i) == LET v == Verdict(Rec[i]) IN
